@@ -42,7 +42,7 @@ import (
 	"verifharness/common"
 )
 
-const lifeTimeout = 45 * time.Second // bound of every single call / join of a generation
+const lifeTimeout = 30 * time.Second // bound of every single call / join of a generation
 
 // users are the goroutines that use one component instance.
 type users struct {
@@ -51,6 +51,13 @@ type users struct {
 	after int32 // set once Shutdown has returned
 	wg    sync.WaitGroup
 	calls int64 // calls that STARTED after Shutdown returned
+	slow  int32 // set while a Shutdown has been pending for seconds: do not burn CPU until the watchdog fires
+}
+
+// slowAfter makes the users call only every 20 ms once d has passed; the returned function undoes it.
+func (u *users) slowAfter(d time.Duration) func() {
+	t := time.AfterFunc(d, func() { atomic.StoreInt32(&u.slow, 1) })
+	return func() { t.Stop(); atomic.StoreInt32(&u.slow, 0) }
 }
 
 // start runs n goroutines calling f until u.stop; panics are captured as soak.spawn does.
@@ -76,6 +83,9 @@ func (u *users) start(name string, n int, seed uint64, f func(w int, r *common.R
 				}()
 				if late {
 					atomic.AddInt64(&u.calls, 1)
+				}
+				if atomic.LoadInt32(&u.slow) != 0 {
+					time.Sleep(20 * time.Millisecond)
 				}
 			}
 		}(w)
@@ -219,13 +229,16 @@ func soakTrackerLife(secs int) {
 			nap(r, 200, 400)
 		})
 		time.Sleep(time.Duration(r.Intn(3000)) * time.Microsecond)
+		unslow := u.slowAfter(2 * time.Second)
 		for _, err := range shutdownAtOnce("stateless.Tracker.Shutdown", 2, func() error { return t.Shutdown(ctx) }) {
 			if err != nil {
 				s.tornf("stateless.Tracker.Shutdown returned %v", err)
 			}
 		}
+		unslow()
 		u.lateCallsAndJoin("trackerlife", 8)
 		within("a second stateless.Tracker.Shutdown did not return", func() { t.Shutdown(ctx) })
+		nap(r, 2000, 4000) // moderate CPU use: about 100 generations per second
 	})
 	s.run(secs, nil)
 	s.finish()
@@ -299,16 +312,18 @@ func soakCRDTLife(secs int) {
 		})
 		// most shutdowns come while a batch is open or being committed (batch age 30 ms)
 		time.Sleep(time.Duration(r.Intn(120000)) * time.Microsecond)
+		unslow := u.slowAfter(2 * time.Second)
 		for _, err := range shutdownAtOnce("crdt Consensus.Shutdown", 2, func() error { return cc.Shutdown(ctx) }) {
 			if err != nil {
 				s.tornf("crdt Consensus.Shutdown returned %v", err)
 			}
 		}
+		unslow()
 		u.lateCallsAndJoin("crdtlife", 12)
 		within("a second crdt Consensus.Shutdown did not return", func() { cc.Shutdown(ctx) })
 		atomic.AddUint64(&conclusive, 1)
-		// a libp2p host per generation is expensive: about one generation per second
-		for time.Since(began) < time.Second && !s.stopped() {
+		// a libp2p host per generation is expensive: at most two generations per second
+		for time.Since(began) < 500*time.Millisecond && !s.stopped() {
 			time.Sleep(10 * time.Millisecond)
 		}
 	})
@@ -352,8 +367,10 @@ type lifeConsensus struct {
 
 func (c *lifeConsensus) Ready(context.Context) <-chan struct{} { return c.ready }
 
-func soakClusterLife(secs int) {
-	s := newSoak("clusterlife")
+// soakClusterLife: structure `clusterlife` shuts the cluster down only once Ready() was released (the cluster is "in use");
+// structure `clusterearly` also lets Shutdown race ready() itself (thorough tier; finding K18b: deadlock, see notes/C18.md).
+func soakClusterLife(secs int, name string, afterReadyOnly bool) {
+	s := newSoak(name)
 	ctx := context.Background()
 	priv, _, err := crypto.GenerateEd25519Key(crand.Reader)
 	if err != nil {
@@ -370,7 +387,9 @@ func soakClusterLife(secs int) {
 	defer h.Close()
 	cids := lifeCids()
 	var gen, gotReady, early uint64
-	afterReadyOnly := os.Getenv("C18_CLUSTERLIFE_AFTER_READY") != "" // diagnosis: Shutdown only once Ready() is released
+	if os.Getenv("C18_CLUSTERLIFE_AFTER_READY") != "" {
+		afterReadyOnly = true
+	}
 	s.spawn("gen", 1, func(_ int, r *common.Rng) {
 		g := atomic.AddUint64(&gen, 1)
 		wasReady, wasEarly := clusterGeneration(s, r, h, cids, g, afterReadyOnly)
@@ -380,12 +399,13 @@ func soakClusterLife(secs int) {
 		if wasEarly {
 			atomic.AddUint64(&early, 1)
 		}
+		nap(r, 3000, 5000) // moderate CPU use
 	})
 	s.run(secs, nil)
-	fmt.Printf("# clusterlife: %d generations, %d reached ready, %d were shut down before Ready() was released\n",
+	fmt.Printf("# "+name+": %d generations, %d reached ready, %d were shut down before Ready() was released\n",
 		atomic.LoadUint64(&gen), atomic.LoadUint64(&gotReady), atomic.LoadUint64(&early))
 	if atomic.LoadUint64(&gotReady) == 0 {
-		fmt.Println("# inconclusive clusterlife: no generation reached ready")
+		fmt.Println("# inconclusive "+name+": no generation reached ready")
 	}
 	s.finish()
 }
@@ -543,11 +563,13 @@ func clusterGeneration(s *soak, r *common.Rng, h host.Host, cids []cid.Cid, g ui
 	default:
 		wasEarly = true
 	}
+	unslow := u.slowAfter(2 * time.Second)
 	for _, err := range shutdownAtOnce("Cluster.Shutdown", 2+int(g%2), func() error { return cl.Shutdown(ctx) }) {
 		if err != nil {
 			s.tornf("Cluster.Shutdown returned %v", err)
 		}
 	}
+	unslow()
 	select {
 	case <-doneSeen:
 	case <-time.After(lifeTimeout):
